@@ -646,3 +646,38 @@ theorem C_add_new_groups (m : Mem) (bk bl0 fa cell bu bua be bea : Nat) (us es :
   rw [this]; exact hE j hj'
 
 end LeafKf
+
+namespace LeafKf.Example
+
+theorem ent_u0 : EntMem mem 5 (7 * 0) us[0] [0, 1, 3] :=
+  ⟨by decide, ⟨6, rfl, rfl, by decide⟩, ⟨7, rfl, rfl, by decide⟩, ⟨.ptr 8 0, rfl, .some 8 _ rfl, fun b hb => by cases hb; decide⟩,
+    ⟨.null, rfl, .none, fun b hb => by cases hb⟩, ⟨.null, rfl, .none, fun b hb => by cases hb⟩, rfl⟩
+
+theorem base_full : SrcMem mem 4 5 us [0, 1, 3] :=
+  ⟨⟨_, rfl, rfl, rfl, rfl⟩, by decide, ⟨_, rfl, rfl, rfl⟩, by decide, fun i hi => by
+    have : i = 0 := by simp [us] at hi; omega
+    subst this
+    exact ent_u0⟩
+
+/-- the same memory meets the hypotheses of `C_add_new_groups` (nothing in the array yet) -/
+theorem ctx_add : AgCtx mem 0 1 3 2 4 5 9 10 us es 0 3 0 :=
+  ⟨override_ok, base_full, ⟨_, rfl, rfl, rfl⟩, by decide, by decide, by decide, by decide, by decide, by decide, by decide, by decide, by decide, by decide,
+    fun e he => by
+      simp [es] at he
+      rcases he with rfl | rfl | rfl <;> decide⟩
+
+theorem model_add : Econf.addNewGroups us es = [{ group := [66], key := [121], value := none, cb := none, ca := none, line := 5, quotes := false }] := by
+  decide
+
+/-- `add_new_groups` on it: one entry (group `B`, the base has no such group) is appended, the array is cut to one entry -/
+theorem run_add : ∃ m' loc' bl' gl' fa', exec 10 LeafFns.add_new_groups.body
+      { mem := mem, loc := [.ptr 0 0, .ptr 2 0, .ptr 4 0, .ptr 9 0, .int 0, .undef, .undef, .undef, .undef, .undef] } = .ret (.int 1) { mem := m', loc := loc' } ∧
+    GlMem m' 0 bl' gl' ∧ gl'.map (·.2) = [[66]] ∧
+    EntMem m' fa' 0 { group := [66], key := [121], value := none, cb := none, ca := none, line := 5, quotes := false } [0, bl'] := by
+  obtain ⟨m', loc', bl', gl', fa', hex, hG, hn, _, _, hE, _, _⟩ :=
+    C_add_new_groups mem 0 1 3 2 4 5 9 10 us es [] 3 0 ctx_add (fun cblk hb => by cases hb; exact ⟨rfl, rfl⟩) dest_ok
+      (fun blk hb => by cases hb; rfl) (by decide) (fun x hx => by cases hx) _ rfl rfl rfl rfl rfl 10 (by decide)
+  rw [model_add] at hex hn hE
+  exact ⟨m', loc', bl', gl', fa', by simpa using hex, hG, by simpa [Econf.addGroup] using hn, by simpa using hE 0 (by simp)⟩
+
+end LeafKf.Example
